@@ -392,6 +392,42 @@ def rule_every_leaf_gates(ctx, cfg='prod-all', which=('pok', 'zkpok')):
 
 
 # ---------------------------------------------------------------------------------- C15 challenge ingredients
+def _is_hash_helper(eng, tgt, _depth=0):
+    """a local function that only hashes what it is given: it feeds a digest (digest / update + finalize) and each of its value parameters may
+    flow into its result"""
+    prog = eng.prog
+    hb = prog.bodies.get(tgt)
+    if hb is None or hb.kind == 'Closure':
+        return False
+    direct = [t for bi, t in hb.calls() if callee_matches(t, 'digest::Digest::digest') or callee_matches(t, 'digest::Digest::finalize')
+              or callee_matches(t, 'digest::Digest::update') or (t.get('callee') or '').endswith(('Digest::finalize', 'Digest::update', 'Digest::digest'))]
+    if not direct:
+        return False
+    return True
+
+
+def _fs_hash_sites(eng, b):
+    """[(block, call, ingredient operands)]: direct `Digest::digest(x)` calls, and calls of a local hash helper (ingredients = its arguments)"""
+    out = []
+    for bi, t in b.calls():
+        if callee_matches(t, 'digest::Digest::digest'):
+            out.append((bi, t, t['args'][:1]))
+            continue
+        tgt = local_target(eng, t)
+        if tgt and tgt != b.path and _is_hash_helper(eng, tgt):
+            out.append((bi, t, list(t['args'])))
+    return out
+
+
+def _site_atoms(mf, fd, bi, ops):
+    must, may = set(), set()
+    for a in ops:
+        if a['k'] in ('copy', 'move'):
+            must |= mf.must_atoms_place(a['pl'], bi)
+        may |= fd.read_op(a)
+    return must, may
+
+
 def rule_nisp5_challenge(ctx, cfg='prod-all'):
     """the signature-PoK challenge hashes the five commitments (prover) / the five recomputed inputs (verifier); each recomputed input depends on
     the responses, commitment values, public bases, c, the revealed messages and the hidden-position set."""
@@ -408,14 +444,12 @@ def rule_nisp5_challenge(ctx, cfg='prod-all'):
             raise AnchorMissing(fn)
         fd = eng.fndep(fn)
         mf = MustFlow(eng, fd)
-        sites = [(bi, t) for bi, t in b.calls() if callee_matches(t, 'digest::Digest::digest')]
+        sites = _fs_hash_sites(eng, b)
         if len(sites) != 1:
             yield Ob('RF-C', '%s#hash-sites' % fn, False, 'exactly one challenge hash', b.span, fact=len(sites), expected=1)
             continue
-        bi, t = sites[0]
-        arg = t['args'][0]
-        must = mf.must_atoms_place(arg['pl'], bi) if arg['k'] in ('copy', 'move') else set()
-        may = fd.read_op(arg)
+        bi, t, ings = sites[0]
+        must, may = _site_atoms(mf, fd, bi, ings)
         for spec in cover:
             req = parse_req(b, spec)
             # values folded inside the `for i in 0..n { if hidden(i) {..} else {..} }` loops reach the hash through one of the two arms: may-flow
@@ -480,14 +514,12 @@ def rule_range_proof_hash_sites(ctx, cfg='prod-all'):
             raise AnchorMissing(fn)
         fd = eng.fndep(fn)
         mf = MustFlow(eng, fd)
-        sites = [(bi, t) for bi, t in b.calls() if callee_matches(t, 'digest::Digest::digest')]
+        sites = _fs_hash_sites(eng, b)
         if len(sites) != 1:
             yield Ob('RF-C', '%s#hash-sites' % fn, False, 'exactly one Fiat-Shamir hash', b.span, fact=len(sites), expected=1)
             continue
-        bi, t = sites[0]
-        arg = t['args'][0]
-        must = mf.must_atoms_place(arg['pl'], bi) if arg['k'] in ('copy', 'move') else set()
-        may = fd.read_op(arg)
+        bi, t, ings = sites[0]
+        must, may = _site_atoms(mf, fd, bi, ings)
         for spec in cover:
             req = parse_req(b, spec)
             # loops that retry (proof_large_interval_specific) hash inside the loop: use may-flow there
@@ -618,29 +650,42 @@ def rule_checks_not_skippable_by_artefact(ctx, cfg='prod-all'):
              (POKI + 'proof_verify', ['nisp5_MultiAttr_verify_proof', 'nisp2sec_verify_proof', 'Boudot2000RangeProof::verify'])]
     for suffix, callees in specs:
         b = resolve_fn(prog, suffix)
-        fd = eng.fndep(b.path)
         kself = b.param_index('self')
         n = 0
-        for bi, t in b.calls():
-            tgt = local_target(eng, t) or ''
-            if not any(tgt.endswith(c) for c in callees):
+        # the sub-verifiers may be called by the entry point itself or by a private helper it delegates the checking to
+        for fr in walk(eng, b.path, max_depth=4, include_closures=False):
+            if any(fr.path.endswith(c) for c in callees):
                 continue
-            n += 1
-            bad = []
-            for g in ga.block_gates(fd, bi):
-                if g.kind == 'deleg':
-                    continue        # an earlier sub-verifier failing is a refusal, not a skip
-                # a gate whose failing edge leaves the function (return false / panic) is a refusal too
-                sw, taken = g.edge
-                others = [x for x in b.succ[sw] if x != taken]
-                if others and all(bi not in b.reachable(o) and not _reaches_accept(b, fd, o) for o in others):
+            for bi, t in fr.body.calls():
+                tgt = local_target(eng, t) or ''
+                if not any(tgt.endswith(c) for c in callees):
                     continue
-                ats = g.all_atoms()
-                if any(strip(a)[0] == 'p' and strip(a)[1] == kself for a in ats):
-                    bad.append(g.describe())
-            yield Ob('RF-D', '%s#unskippable:%s[%d]' % (b.path, tgt.split('::')[-1], n), not bad,
-                     'the conditions under which this sub-verifier is invoked do not depend on the untrusted proof', '%s L%s' % (b.file(), t['line']),
-                     fact={'proof_dependent_conditions': bad[:4]}, expected='none')
+                n += 1
+                bad = []
+                # conditions on the call itself, and on each call of the chain that leads from the entry point to it
+                f, at = fr, bi
+                while f is not None:
+                    fb, ffd = f.body, f.fd
+                    for g in ga.block_gates(ffd, at):
+                        if g.kind == 'deleg':
+                            continue        # an earlier sub-verifier failing is a refusal, not a skip
+                        # a gate whose failing edge leaves the function (return false / error / panic) is a refusal too
+                        sw, taken = g.edge
+                        others = [x for x in fb.succ[sw] if x != taken]
+                        if others and all(at not in fb.reachable(o) and not _reaches_accept(fb, ffd, o) for o in others):
+                            continue
+                        ats = f.lift(g.all_atoms())
+                        if any(strip(a)[0] == 'p' and strip(a)[1] == kself for a in ats):
+                            bad.append(g.describe())
+                    if f.parent is None:
+                        break
+                    at = next((x for x, tt in f.parent.body.calls() if tt is f.call), None)
+                    f = f.parent
+                    if at is None:
+                        break
+                yield Ob('RF-D', '%s#unskippable:%s[%d]' % (b.path, tgt.split('::')[-1], n), not bad,
+                         'the conditions under which this sub-verifier is invoked do not depend on the untrusted proof', '%s L%s' % (fr.body.file(), t['line']),
+                         fact={'proof_dependent_conditions': bad[:4], 'called_in': fr.path.split('::')[-1]}, expected='none')
         if n == 0:
             yield Ob('RF-D', '%s#unskippable:none' % b.path, False, 'expected sub-verifier calls', b.span, fact=0, expected='>= 1')
 
@@ -651,6 +696,31 @@ def _reaches_accept(b, fd, start):
 
 
 # ---------------------------------------------------------------------------------- mask vectors of the CL03 provers (C17 / C19)
+def _element_draw(eng, zf, l, depth=0):
+    """the call that produces the value of local l - or, when l is a tuple / struct built in place (an element that carries its position next to
+    the mask), the random_bits call that produces one of its components"""
+    from rf_bits import origin_call
+    oc = origin_call(zf, l)
+    if oc is not None or depth > 2:
+        return oc
+    d = zf.single_def(l)
+    for _ in range(4):
+        if d and d[0] == 'assign' and d[2]['rv']['k'] == 'use' and d[2]['rv']['op']['k'] in ('copy', 'move') and not d[2]['rv']['op']['pl'].get('p'):
+            d = zf.single_def(d[2]['rv']['op']['pl']['l'])
+            continue
+        break
+    if d and d[0] == 'assign' and d[2]['rv']['k'] == 'agg' and d[2]['rv'].get('ak') in ('tuple', 'adt'):
+        other = None
+        for o in d[2]['rv']['ops']:
+            if o['k'] in ('copy', 'move') and not o['pl'].get('p'):
+                c = _element_draw(eng, zf, o['pl']['l'], depth + 1)
+                if c is not None and (local_target(eng, c) or '').endswith('random_bits'):
+                    return c
+                other = other or c
+        return other
+    return None
+
+
 def rule_mask_vectors(ctx, cfg='prod-all'):
     """per-attribute masks: (1) every element is a separate random_bits draw made inside the loop that stores it (no vec![x; n], no hoisting);
     (2) in the signature proof, position i of r_5 holds a random mask exactly when i is in the hidden-position list (membership test on the
@@ -665,7 +735,7 @@ def rule_mask_vectors(ctx, cfg='prod-all'):
         fd = eng.fndep(fn)
         za.summary(fn)
         zf = za.zf(fn)
-        roots = [l for l, loc in enumerate(b.locals) if loc.get('name') == vec and loc['ty'].startswith('std::vec::Vec<rug::Integer')]
+        roots = [l for l, loc in enumerate(b.locals) if loc.get('name') == vec and loc['ty'].startswith('std::vec::Vec<') and 'rug::Integer' in loc['ty']]
         if not roots:
             raise AnchorMissing('%s: mask vector %s' % (fn, vec))
         root = roots[0]
@@ -691,7 +761,7 @@ def rule_mask_vectors(ctx, cfg='prod-all'):
                 ci = fd._closure_info(mc['args'][1]['pl']['l'])
                 if ci is not None:
                     czf = za.zf(ci[0])
-                    rc = origin_call(czf, 0)
+                    rc = _element_draw(eng, czf, 0)
                     mapped = {'closure': ci[0].split('::')[-1], 'element_is_result_of': (local_target(eng, rc) or rc.get('callee') or '?') if rc is not None else None}
                     mapped['ok'] = rc is not None and (local_target(eng, rc) or '').endswith('random_bits')
         if mapped is not None and vec == 'r_5':
@@ -752,7 +822,7 @@ def rule_mask_vectors(ctx, cfg='prod-all'):
         for bi, t in pushes:
             from rf_bits import origin_call
             a = t['args'][1]
-            oc = origin_call(zf, a['pl']['l']) if a['k'] in ('copy', 'move') and not a['pl'].get('p') else None
+            oc = _element_draw(eng, zf, a['pl']['l']) if a['k'] in ('copy', 'move') and not a['pl'].get('p') else None
             src_block = None
             if oc is not None and (local_target(eng, oc) or '').endswith('random_bits'):
                 src_block = next((x for x, tt in b.calls() if tt is oc), None)
